@@ -9,12 +9,14 @@ def run(db, res, tier):
   nm = r_global.check_global_mutations(res, sm)
   evs = [e for es in db.resolve_all_launches().values() for e in es]
   nk, nf = r_global.check_factories(res, sm, evs)
+  nmemo = r_global.check_memoised_functions(res, sm)
+  res.floor("functools-memoised functions", nmemo, 3)
   nw = r_global.check_cache_wrapper(res, sm)
   res.floor("cache wrapper clauses", nw, 5)
   res.floor("global mutation sites", nm, 1)
   res.floor("cache_kernel factories", nf, 65)
   res.floor("cached nested kernels/funcs", nk, 65)
-  res.rule_text = "R-GLOBAL: (1) run-time mutations of module-level bindings are confined to the tabled kernel cache and profiling stack; (2) @cache_kernel factory names are unique; (3) nested kernels are module=\"unique\"; (4) cached kernels capture no module-level mutable container; (5) parameters hashed by .size are used only through .size; (6) no factory is called with keyword arguments; (7) the memoising wrapper builds its key from every positional argument plus the factory identity, accepts no unhashed keyword arguments and returns the cached entry"
+  res.rule_text = "R-GLOBAL: (1) run-time mutations of module-level bindings are confined to the tabled kernel cache and profiling stack; (2) @cache_kernel factory names are unique; (3) nested kernels are module=\"unique\"; (4) cached kernels capture no module-level mutable container; (5) parameters hashed by .size are used only through .size; (6) no factory is called with keyword arguments; (8) every functools.lru_cache / cache function takes only immutable scalar parameters (the key is the value, never an object identity); (7) the memoising wrapper builds its key from every positional argument plus the factory identity, accepts no unhashed keyword arguments and returns the cached entry"
   res.explanation = (
     "Decides that no simulation result can flow through process-global python state: the only globals mutated at run time are the kernel cache (whose key is shown complete) "
     "and the profiling stack. Not decided: Warp's own module/kernel cache."
